@@ -3,7 +3,7 @@ from __future__ import annotations
 
 from . import map_rules as mr
 
-EXPLANATION = '(R1-R3) the numba kernel evaluate_on_grid evaluated symbolically (package helpers inlined): the single store into the output is guarded by full closed containment per axis, the footprint index ranges are conservative and paired with axes/shape, the loop nest above the pixel loops visits every cell exactly once for every thread count (loop BOUNDS evaluated for small sizes), writes inside prange classified; (R4) pre-selection masks of map(): dependence (D4) and large-cell limits (D5) in zero-thickness mode; (R6/R7) map() interpreted over token layers with symbolic numpy values (sa/symnp.py): kernel slots per layer (scalar | u, v, colour), one cell selection for values/coordinates/sizes, each rendered layer made of its own slots and masked by the NaNs of the map, image axes paired with (u,v,n), one length scale, window and resolution per axis, pixel-centre grids; (R9) completion of a bare normal and every string direction (shared with C18); (R10) Layer copies/component views keep options (shared with C19). The same Layer objects handed to two map() calls with different call-level options render what fresh Layers render (R6); the pre-selection reach is at least half the cell diagonal (R4). (R11) the origin/window conversion is exact and a basis completed from a bare normal is orthonormal for every zero-pattern family, all-negative normals included (shared); the map fold also covers a single depth sample and a scatter layer between image layers. The output buffer of the kernel must be floating whatever the layers hold; the guard of the shared store is read from the symbolic evaluation (guard-clause `continue` understood); Array.norm is the identity on scalar layers (R11).'
+EXPLANATION = '(R1-R3) the numba kernel evaluate_on_grid evaluated symbolically (package helpers inlined): the single store into the output is guarded by full closed containment per axis, the footprint index ranges are conservative and paired with axes/shape, the loop nest above the pixel loops visits every cell exactly once for every thread count (loop BOUNDS evaluated for small sizes), writes inside prange classified; (R4) pre-selection masks of map(): dependence (D4) and large-cell limits (D5) in zero-thickness mode; (R6/R7) map() interpreted over token layers with symbolic numpy values (sa/symnp.py): kernel slots per layer (scalar | u, v, colour), one cell selection for values/coordinates/sizes, each rendered layer made of its own slots and masked by the NaNs of the map, image axes paired with (u,v,n), one length scale, window and resolution per axis, pixel-centre grids; (R9) completion of a bare normal and every string direction (shared with C18); (R10) Layer copies/component views keep options (shared with C19). The same Layer objects handed to two map() calls with different call-level options render what fresh Layers render (R6); the pre-selection reach is at least half the cell diagonal (R4). (R11) the origin/window conversion is exact and a basis completed from a bare normal is orthonormal for every zero-pattern family, all-negative normals included (shared); the map fold also covers a single depth sample and a scatter layer between image layers. The output buffer of the kernel must be floating whatever the layers hold; the guard of the shared store is read from the symbolic evaluation (guard-clause `continue` understood); Array.norm is the identity on scalar layers (R11). Value tests inside the kernel (np.isnan of a cell value) become guard terms that the containment rule rejects; undecided tests in map() (mask.all()) are explored both ways.'
 NOT_DECIDED = "floating-point rounding at cell faces; numba's code generation; what matplotlib draws"
 TRUSTED = ('CPython ast', 'numba prange semantics', 'the interpreter sa/models.py and sa/symnp.py')
 TECHNIQUE = 'static analysis: symbolic evaluation of the kernel, parallel-loop write classification, dependence and limit analyses, abstract interpretation of map() over symbolic numpy values'
